@@ -107,16 +107,35 @@ func CheckFullNode(ctx context.Context, f *world.FN, prevHeight uint64, final bo
 	return H, probs
 }
 
-// CheckHeightWritesAcross verifies that chain-height writes over all processes of a node go up by one.
+// CheckHeightWritesAcross judges the values written to the chain-height key over all processes of a node (one log per
+// process): the recorded height never skips a height and never goes down while a process runs. Re-writing the current
+// value is no change of height; the first write of a restarted process may repeat or fall back to an earlier value (a
+// recovery that re-derives the height), but never jumps ahead. If the key does not hold what today's store writes (another
+// name or encoding) nothing is judged: the same content is judged through the store API by the other clauses.
 func CheckHeightWritesAcross(logs [][]world.WriteRec, hit func(string)) []Problem {
-	var hw []uint64
+	var all []uint64
+	last, have := uint64(0), false
 	for _, l := range logs {
-		hw = append(hw, HeightWrites(l)...)
-	}
-	for i := 1; i < len(hw); i++ {
-		hit("height-writes")
-		if hw[i] != hw[i-1]+1 {
-			return []Problem{{"height-writes", hw[i], fmt.Sprintf("chain-height writes are not consecutive: %v", hw)}}
+		hw := HeightWrites(l)
+		for _, v := range hw {
+			if v > 1<<48 {
+				return nil // not the little-endian counter this reader understands
+			}
+		}
+		all = append(all, hw...)
+		for i, v := range hw {
+			if !have {
+				last, have = v, true
+				continue
+			}
+			hit("height-writes")
+			switch {
+			case v > last+1:
+				return []Problem{{"height-writes", v, fmt.Sprintf("the recorded chain height skips a height: writes %v", all)}}
+			case v < last && i > 0:
+				return []Problem{{"height-writes", v, fmt.Sprintf("the recorded chain height goes down while the node runs: writes %v", all)}}
+			}
+			last = v
 		}
 	}
 	return nil
